@@ -19,6 +19,6 @@ for d in sorted(glob.glob('/verif/seeded/*/meta.json')):
     res = '; '.join(f"{p}: {c['verdict']}" for p, c in ck.items())
     sig = next((c['signatures'][0] for c in ck.values() if c['signatures']), '')
     dem = ('pass' if 'ok.' in v['demo_without_change'] else '?') + ' → ' + ('FAIL' if 'FAILED' in v['demo_with_change'] else '?')
-    star = ' ★' if 'history' in m else ''
+    star = (' ★' if 'history' in m else '') + (' ◆' if 'breaks' in m else '')
     print(f"| {m['id']}{star} | {short(m.get('summary'), 170)} | {short(m.get('needs_to_manifest'), 120)} | {dem} | {v['suite_with_change']['passed']}/{v['suite_with_change']['failed']} | {res} | `{short(sig, 60)}` |")
-print(f"\n{n} seeded changes; ★ = missed by the property's own check at first evaluation and caught after the check was strengthened (details in the seed's meta.json).")
+print(f"\n{n} seeded changes; ★ = missed by the property's own check at first evaluation and caught after the check was strengthened (details in the seed's meta.json); ◆ = the change does not break the statement of the property it was written for but that of another property, whose check reports it (meta.json: `breaks`, `note`).")
